@@ -465,6 +465,12 @@ func init() {
 		panic(pathEnd{kind: "crash", msg: "log.Fatalf at " + fr.posStr()})
 	})
 
+	// reflect.DeepEqual over the JSON-like values rulio handles: the engine's structural
+	// equality term (dynamic types must agree, nil and empty maps differ)
+	reg("reflect.DeepEqual", func(ex *Exec, fr *frame, a []Value) Value {
+		return simplify(ex.deepEq(a[0], a[1]))
+	})
+
 	// ---- strings ----
 	reg("strings.HasPrefix", func(ex *Exec, fr *frame, a []Value) Value {
 		return simplify(TPrefixOf(strTerm(a[1]), strTerm(a[0])))
